@@ -43,7 +43,7 @@ TRUSTED_BASE = [
     "Lean 4.33 kernel",
     "hand-written model GraphiqModel/Model/Wire.lean (copy, unwrap_nodes, remove_identity, group_one_qubit_gates, assign_noise, flat) tied to circuit_dag.py / circuit_base.py by this correspondence run",
     "networkx topological_sort returns a linear extension (checked on every observed call by the model: assign_noise rejects a sequence that is not one)",
-    "stabilizer semantics of the compile sequence: the commutation of operations on disjoint quantum registers is PROVED (Properties/C13 §2b, Proofs/Commute*.lean) on C07's group transformers and tied to the compile loop stabRun by a refinement theorem (§2c); trusted there: that stabRun models StabilizerCompiler (correspondence run), the density-matrix backend (compared per circuit and branch), the classical record (not part of the state of the theorem)",
+    "stabilizer semantics of the compile sequence: the commutation of operations on disjoint quantum registers is PROVED (Properties/C13 §2b, Proofs/Commute*.lean) on C07's group transformers and tied to the compile loop stabRun by refinement and completeness theorems (§2c); trusted there: that stabRun and the translation toCOp model StabilizerCompiler.compile_one_gate (differential testing: C01 correspondence, the branch-by-branch and random-order oracles of this harness), the density-matrix backend (compared per circuit and branch)",
     "aliasing half: differential testing only — Python object aliasing is outside a functional model (DESIGN §4 C13, §7.6)",
     "harness: wire snapshot, scripted-outcome compilers (subclasses of the public compilers), stab_canon",
 ]
